@@ -54,4 +54,10 @@ def json_b64encode(text: Any) -> bytes:
 
 
 def json_b64decode(text: Any) -> Any:
-    return json.loads(urlsafe_b64decode(to_bytes(text, "ascii")))
+    try:
+        value = json.loads(urlsafe_b64decode(to_bytes(text, "ascii")))
+    except RecursionError:
+        raise ValueError("Invalid JSON: too deeply nested")
+    if not isinstance(value, dict):
+        raise ValueError("Invalid JSON: a header must be a JSON object")
+    return value
